@@ -238,7 +238,7 @@ func ruleRangeCoder(c *Ctx, r *Report, prefix string) {
 				if st, ok := ins.(*ssa.Store); ok {
 					if fa, isFA := st.Addr.(*ssa.FieldAddr); isFA {
 						k, isK := constInt(st.Val)
-						switch fieldOfAddr(fa).Name() {
+						switch refNameOf(fieldOfAddr(fa)) {
 						case "nrange":
 							ok1 = isK && k == 0xffffffff
 						case "cacheLen":
